@@ -162,6 +162,10 @@ var bigMax = 65535
 
 func genTripletSet(c *core.Chooser, distinct bool, big bool) []spec.Triplet {
 	n := c.Size(32, 0, 1, 2)
+	emptyish := c.Prob(1, 8) // marker parameters: (almost) all values empty
+	if emptyish && n < 5 {
+		n = 5 + c.Intn(20)
+	}
 	used := map[uint16]bool{}
 	var ts []spec.Triplet
 	for i := 0; i < n; i++ {
@@ -185,6 +189,9 @@ func genTripletSet(c *core.Chooser, distinct bool, big bool) []spec.Triplet {
 			max = bigMax
 		}
 		l := c.Size(max, 0, 1, 255, 256, 65531, 65534)
+		if emptyish && !c.Prob(1, 8) {
+			l = 0
+		}
 		ts = append(ts, spec.Triplet{Tag: tag, Val: spec.EdgeValue(c, c.Blob(l, "any"))})
 	}
 	return ts
